@@ -22,6 +22,10 @@ import FxVerif.Model.C08Gen
 import FxVerif.Proofs.C08Gen
 import FxVerif.Model.C08Sol
 import FxVerif.Gen.C08d
+import FxVerif.Model.C08DepI
+import FxVerif.Proofs.C08Dep
+import FxVerif.Proofs.C08DepX
+import FxVerif.Proofs.C08ExtMix
 /-!
 # C08 — coin ↔ ERC-20 conversion conserves value and keeps the token-pair books balanced
 
@@ -1376,5 +1380,221 @@ example :
   decide
 
 end Fip20Source
+
+/-! ### the StateDB cache / journal model is what the ethermint fork's source says (Model/C08Dep*.lean, Gen/C08e.lean, round 5) -/
+
+section StateDBSource
+open FxVerif.Model.C08Cache FxVerif.Model.C08Dep FxVerif.Gen.C08e FxVerif.Proofs.C08Dep
+
+/-- **`GetState` / `SetState` of the hand model are the fork's functions**: interpreting the statement lists of
+`(*stateObject).GetState` (→ `GetCommittedState`) and `SetState` (→ `GetState`, journal append, `setState`) — regenerated from
+`x/evm/statedb/state_object.go` in the module cache on every run — on ANY state object, slot and value gives exactly
+`Outer.read` / `Outer.write` (dirty first, then origin, else load AND cache in origin; a write of the current value records
+nothing) and appends exactly the journal entry `(slot, value before the write)`.  A reordered lookup, a dropped
+`originStorage[key] = value`, a dropped `prev == value` test or journal append breaks this proof. -/
+theorem statedb_read_write_match_code :
+    (∀ k o j, iGetState k ⟨o, j⟩ = some ((o.read k).1, ⟨(o.read k).2, j⟩)) ∧
+    (∀ k v o j, (iSetState k v ⟨o, j⟩).map (·.o) = some (o.write k v)) ∧
+    (∀ k v o j, (iSetState k v ⟨o, j⟩).map (·.journal) =
+      some (if (o.read k).1 = v then j else (k, (o.read k).1) :: j)) ∧
+    (∀ s a, iStepAcc s a = some (stepAcc s a)) := by
+  refine ⟨iGetState_eq, fun k v o j => ?_, fun k v o j => ?_, iStepAcc_eq⟩
+  · rw [iSetState_eq]; simp [write_eq_step]
+  · rw [iSetState_eq]
+    by_cases h : (o.read k).1 = v <;> simp [stepAcc, h]
+
+/-- **every token program runs through the interpreted source as through the hand model**: the slot accesses of any `TProg`
+(the compiled FIP20 methods included, `fip20_programs_match_code`), executed statement by statement by the regenerated
+`GetState` / `SetState`, never get stuck and leave the StateDB `runOuter` computes -/
+theorem statedb_program_run_matches_code (p : TProg) (o : Outer) (j : List (Slot × Nat)) :
+    ∃ s', iRunAcc (accsOf p o) ⟨o, j⟩ = some s' ∧ s'.o = (runOuter p o).2 :=
+  ⟨_, iRunAcc_eq _ _, runAcc_accsOf p o j⟩
+
+/-- **`Commit` of the hand model is the fork's slot loop**: the regenerated body of
+`for _, key := range obj.dirtyStorage.SortedKeys()` (`value := dirtyStorage[key]`; skip when equal to `originStorage[key]`;
+`keeper.SetState`) run over the dirty keys of ANY state object never gets stuck and writes, slot by slot, the store
+`Outer.commit` describes — in particular a dirty slot whose value equals its origin value is NOT written, so whatever a
+nested call stored there survives, and one that differs overwrites it -/
+theorem statedb_commit_matches_code (s : ObjSt) :
+    ∃ s', iCommit s = some s' ∧ ∀ k, s'.o.store k = s.o.commit k :=
+  iCommit_eq s
+
+/-- the facts of the nested-call model read off the source: `Commit` writes the native store before the dirty slots (so the
+dirty slots win), a keeper-level call (`ApplyMessageWithConfig`) builds a NEW StateDB over the ctx it is given (so it sees
+the store, never the caller's caches: `nestedCall`) and commits it iff asked -/
+theorem statedb_nested_call_facts_match_code :
+    commit_nativeStoreFirst = true ∧ commit_rangesOverDirtyKeys = true ∧
+    applyMessage_freshStateDB = true ∧ applyMessage_commitsIffAsked = true := by
+  decide
+
+/-- **`RevertToSnapshot` of the hand model is the fork's journal replay**: take ANY StateDB state at the snapshot (`snap`, with
+any journal `j0` below it) and ANY sequence of reads, writes and native-store changes after it (every frame body is one).
+Undoing the storage entries appended since the snapshot with the regenerated `storageChange.Revert` (= `setState(key,
+prevalue)`), in the order of the regenerated loop header (`journalRevert_newestFirst`), never gets stuck, leaves the journal
+truncated to `j0`, leaves `originStorage` as it is at the point of failure (NOT restored) and leaves in `dirtyStorage`, slot
+by slot, exactly what `Outer.revertTo snap cur` holds: a slot dirty at the snapshot has its snapshot value back, a slot first
+written after the snapshot KEEPS an entry holding its origin value. -/
+theorem statedb_revert_matches_code (snap : Outer) (j0 : List (Slot × Nat)) (accs : List Acc) :
+    let cur := runAcc accs ⟨snap, j0⟩
+    iRunAcc accs ⟨snap, j0⟩ = some cur ∧
+    ∃ seg s', cur.journal = seg ++ j0 ∧ iRevertTo seg j0 cur.o = some s' ∧ s'.journal = j0 ∧
+      s'.o.origin = cur.o.origin ∧ ∀ k, FxVerif.Model.C08Cache.lookup k s'.o.dirty = FxVerif.Model.C08Cache.lookup k (snap.revertTo cur.o).dirty := by
+  intro cur
+  refine ⟨iRunAcc_eq _ _, ?_⟩
+  obtain ⟨seg, hj, hi⟩ := (JInv.init snap).run (j0 := j0) accs
+  simp only [List.nil_append] at hj hi
+  refine ⟨seg, ⟨replay seg cur.o, j0⟩, hj, ?_, rfl, (replay_frame seg cur.o).1, fun k => hi.revert k⟩
+  simp [iRevertTo, journalRevert_revertsEntry, journalRevert_newestFirst, journalRevert_truncates, revertAll_eq]
+
+/-- the ORDER of the replay matters (and is the regenerated one): a frame that writes the same slot twice (7 → 5 → 9) has the
+entries `(k, 5)` (newest) and `(k, 7)`; newest-first ends with the snapshot value 7, oldest-first would end with the
+intermediate value 5 -/
+theorem journal_revert_order_matters :
+    let snap : Outer := { store := fun _ => 7 }
+    let cur := runAcc [.wr .supply 5, .wr .supply 9] ⟨snap, []⟩
+    cur.journal = [(.supply, 5), (.supply, 7)] ∧
+    (revertAll cur.journal cur).map (fun (s : ObjSt) => FxVerif.Model.C08Cache.lookup Slot.supply s.o.dirty) = some (some 7) ∧
+    FxVerif.Model.C08Cache.lookup Slot.supply (snap.revertTo cur.o).dirty = some 7 ∧
+    (revertAll cur.journal.reverse cur).map (fun (s : ObjSt) => FxVerif.Model.C08Cache.lookup Slot.supply s.o.dirty) = some (some 5) := by
+  decide
+
+/-- what the tie catches, on mutated statement lists (the fork lives in the read-only module cache, so these edits cannot be
+made through a patched tree): (b) `GetCommittedState` without `s.originStorage[key] = value` — the loaded value is not
+cached, unlike `Outer.read`; (c) the `Commit` loop without the `value == originStorage[key]` skip — a slot whose dirty value
+equals its origin value is written over what a nested call stored (9), where `Outer.commit` keeps the 9.  With either list
+in `Gen/C08e.lean` the `…_match_code` theorems above are FALSE, so their proofs stop compiling. -/
+example :
+    (let o : Outer := { store := fun _ => 7 }
+     (exec noCallees Slot.supply [.overrideGuard, .retIfIn .origin, .load "value", .ret "value"] [] ⟨o, []⟩).2.o.origin = [] ∧
+     (o.read Slot.supply).2.origin = [(Slot.supply, 7)]) ∧
+    (let o : Outer := { store := fun _ => 9, origin := [(Slot.supply, 7)], dirty := [(Slot.supply, 7)] }
+     (exec noCallees Slot.supply [.getMap "value" .dirty, .storeSet "value"] [] ⟨o, []⟩).2.o.store Slot.supply = 7 ∧
+     o.commit Slot.supply = 9) := by
+  decide
+
+/-- non-vacuity: a frame that reads one slot, writes another twice and a third back to its old value, after a keeper-level
+call changed the store: two entries are undone, the read slot stays cached -/
+example :
+    let snap : Outer := { store := store0 50 0 0 100 0, dirty := [(.bal 1, 3)] }
+    let cur := runAcc [.rd (.bal 0), .native (store0 30 0 0 80 0), .wr (.bal 1) 8, .wr (.bal 1) 9, .wr .supply 80] ⟨snap, []⟩
+    cur.journal = [(.bal 1, 8), (.bal 1, 3)] ∧
+    (iRevertTo cur.journal [] cur.o).map (fun (s : ObjSt) => (FxVerif.Model.C08Cache.lookup (Slot.bal 1) s.o.dirty, FxVerif.Model.C08Cache.lookup (Slot.bal 0) s.o.origin, FxVerif.Model.C08Cache.lookup Slot.supply s.o.origin)) =
+      some (some 3, some 50, some 80) := by
+  decide
+
+/-- **the mixed-transaction model IS the execution of the fork's source**: for EVERY transaction (any sequence of token
+programs run by the running EVM and keeper-level nested calls, any escrow payments, any initial storage) the transaction
+executed with every SLOAD / SSTORE going through the regenerated `GetState` / `SetState`, every keeper-level call building a
+new StateDB (`applyMessage_freshStateDB`) and committing it with the regenerated `Commit` loop, and the transaction-level
+`Commit` at the end (native store first) never gets stuck and yields exactly `txResult` — outcome, final token storage,
+final escrow.  So `mixed_tx_coherent`, `mixed_tx_preserves_sum_partial` and the three defect witnesses are statements about
+the source as written. -/
+theorem mixed_tx_model_matches_statedb_source (steps : List MStep) (st : Store) (esc : Nat) :
+    iTxResult steps st esc = some (txResult steps st esc) ∧
+    (∀ p st', iNested p st' = some (nestedCall p st')) :=
+  ⟨iTxResult_eq steps st esc, iNested_eq⟩
+
+/-- the coherence theorem over the interpreted source: a coherent transaction, executed as the source says, is the
+sequential execution on one store -/
+theorem mixed_tx_coherent_source (steps : List MStep) (st : Store) (esc : Nat)
+    (hc : CoherentTx steps ⟨{ store := st }, esc⟩) : iTxResult steps st esc = some (seqResult steps st esc) := by
+  rw [iTxResult_eq, mixed_tx_coherent steps st esc hc]
+
+/-- non-vacuity of `mixed_tx_coherent_source` (a read of another holder's balance, then `bridgeCall`: coherent), and the
+first defect witness through the interpreted source: `transfer 10` then `bridgeCall 50` creates 50 tokens -/
+example :
+    CoherentTx [.evm (balanceOf 1) 0, .nested (burn 0 50) 50 0] ⟨{ store := store0 200 0 0 350 0 }, 350⟩ ∧
+    (iTxResult [.evm (transfer 0 1 10) 0, .nested (burn 0 50) 50 0] (store0 150 0 0 300 0) 300).map
+      (fun r => (r.1, r.2.1 (.bal 0), r.2.1 (.bal 1), r.2.1 .supply, r.2.2)) = some (true, 140, 10, 250, 250) := by
+  refine ⟨by rw [← FxVerif.Proofs.C08Cache.coherentTxB_iff]; decide, ?_⟩
+  rw [iTxResult_eq]
+  decide
+
+/-- **transactions WITH sub-call frames: the model IS the execution of the fork's source.**  For EVERY transaction of
+token programs, keeper-level nested calls and frames whose failure the caller swallows: executed with the regenerated
+`GetState` / `SetState`, a frame being `Snapshot` (journal length + native store), the group, and on failure the regenerated
+journal replay (`storageChange.Revert` per entry, newest first, truncation) followed by the restore of the native store and
+escrow, fresh StateDBs for nested calls, the regenerated `Commit` loop at the end — the interpretation never gets stuck and
+yields exactly `txResultX`.  (After a revert the interpreted `dirtyStorage` holds the replayed entries where the model maps
+over the list; the proof carries the slot-wise equality of the two through every later read, write, nested call, revert
+and the commit.)  So `mixed_tx_frames_coherent_general`, `failed_frame_is_invisible_general` and the frame witnesses
+(`mixed_tx_failed_frame_stale_read_creates_tokens`, `mixed_tx_reverted_write_creates_tokens`,
+`mixed_tx_failed_frame_caches_reverted_burn`) are statements about the source as written. -/
+theorem mixed_tx_frames_model_matches_statedb_source (steps : List XStep) (st : Store) (esc : Nat) :
+    iTxResultX steps st esc = some (txResultX steps st esc) :=
+  iTxResultX_eq steps st esc
+
+/-- the general coherence theorem for frames over the interpreted source -/
+theorem mixed_tx_frames_coherent_source (steps : List XStep) (st : Store) (esc : Nat)
+    (hc : CoherentXG steps ⟨{ store := st }, esc⟩) : iTxResultX steps st esc = some (seqResultX steps st esc) := by
+  rw [iTxResultX_eq, mixed_tx_frames_coherent_general steps st esc hc]
+
+/-- non-vacuity of `mixed_tx_frames_coherent_source` (`[ b20 f999 ] t5`: a frame that fails after a completed keeper-level
+burn without having touched the burnt slot), and the round-4 witness through the interpreted source (`[ b20 t99999 ] t5`:
+the holder loses 20 more than it sent) -/
+example :
+    CoherentXG [.attempt [.nested (burn 0 20) 20 0, .evm (transferFrom 0 4 1 999) 0], .plain (.evm (transfer 0 1 5) 0)]
+      ⟨{ store := store0X 50 0 0 100 0 30 10 }, 100⟩ ∧
+    (iTxResultX [.attempt [.nested (burn 0 20) 20 0, .evm (transfer 0 1 99999) 0], .plain (.evm (transfer 0 1 5) 0)]
+      (store0 50 0 0 100 0) 100).map (fun r => (r.1, r.2.1 (.bal 0), r.2.1 (.bal 1), r.2.1 .supply, r.2.2)) =
+      some (true, 25, 5, 100, 100) := by
+  refine ⟨by rw [← FxVerif.Proofs.C08Cache.coherentXGB_iff]; decide, ?_⟩
+  rw [iTxResultX_eq]
+  decide
+
+end StateDBSource
+
+/-! ### mixed transactions on an EXTERNALLY-owned token: the escrow book at slot level (round 5) -/
+
+section ExternalMixed
+open FxVerif.Model.C08Cache FxVerif.Proofs.C08Cache
+
+/-- **I_external through mixed transactions (partial: coherence)**.  For EVERY transaction a contract builds from the kind-1
+words — direct `transfer` / `balanceOf` / `approve` / `transferFrom` on an externally-owned token mixed with the precompile
+conversions `bridgeCall` (keeper-level `transfer(caller → module)`, coins minted), `crossChain` (`transferFrom` through the
+running EVM, coins minted by the native action) and `cancelSendToExternal` (keeper-level `transfer(module → caller)`, coins
+burnt), any amounts, any initial storage — IF the transaction is coherent (no keeper-level call touches a slot the running
+StateDB has cached), THEN "ERC-20 escrowed by the module − coin supply over all denominations" is the same after the
+transaction as before it, whether it succeeds or reverts.  The hypothesis is what the known nested-EVM finding violates. -/
+theorem mixed_tx_external_book_partial (ws : List EW) (st : Store) (esc : Nat)
+    (hc : CoherentTx (ws.flatMap EW.steps) ⟨{ store := st }, esc⟩) :
+    extBook ((txResult (ws.flatMap EW.steps) st esc).2.1, (txResult (ws.flatMap EW.steps) st esc).2.2) = extBook (st, esc) := by
+  rw [mixed_tx_coherent _ st esc hc]
+  unfold seqResult
+  cases h : runSeq (ws.flatMap EW.steps) (st, esc) with
+  | none => rfl
+  | some s' => obtain ⟨st', esc'⟩ := s'; exact words_keep_extBook ws (st, esc) (st', esc') h
+
+/-- without a keeper-level conversion no hypothesis is needed: `crossChain` converts through the running EVM and mints the
+coins in its native action -/
+theorem mixed_tx_external_book_running_evm (ws : List EW) (hw : ∀ w ∈ ws, ∀ n, w ≠ .b n ∧ w ≠ .c n) (st : Store) (esc : Nat) :
+    extBook ((txResult (ws.flatMap EW.steps) st esc).2.1, (txResult (ws.flatMap EW.steps) st esc).2.2) = extBook (st, esc) := by
+  apply mixed_tx_external_book_partial
+  apply coherent_of_evm_or_native
+  intro s hs
+  obtain ⟨w, hwm, hsw⟩ := List.mem_flatMap.mp hs
+  cases w with
+  | t n => simp [EW.steps] at hsw; exact Or.inl ⟨_, _, hsw⟩
+  | rm => simp [EW.steps] at hsw; exact Or.inl ⟨_, _, hsw⟩
+  | rs => simp [EW.steps] at hsw; exact Or.inl ⟨_, _, hsw⟩
+  | a n => simp [EW.steps] at hsw; exact Or.inl ⟨_, _, hsw⟩
+  | f n => simp [EW.steps] at hsw; exact Or.inl ⟨_, _, hsw⟩
+  | b n => exact absurd rfl (hw _ hwm n).1
+  | x n =>
+    simp [EW.steps] at hsw
+    rcases hsw with hsw | hsw
+    · exact Or.inl ⟨_, _, hsw⟩
+    · exact Or.inr ⟨_, _, hsw⟩
+  | c n => exact absurd rfl (hw _ hwm n).2
+
+/-- non-vacuity (`rs b50`, the control of the harness: coherent) and the witness that the hypothesis is needed (`t10 b50`
+from the state the harness observed: 50 tokens created, the book itself unchanged — the damage is in I_sum) -/
+example :
+    CoherentTx ([EW.rs, .b 50].flatMap EW.steps) ⟨{ store := store0X 200 0 0 350 0 150 100 }, 0⟩ ∧
+    (let r := txResult ([EW.t 10, .b 50].flatMap EW.steps) (store0X 150 0 50 350 0 150 100) 50
+     r.1 = true ∧ r.2.1 (.bal 0) = 140 ∧ r.2.1 (.bal 1) = 10 ∧ r.2.1 (.bal 2) = 100 ∧ r.2.2 = 100) := by
+  refine ⟨by rw [← coherentTxB_iff]; decide, by decide⟩
+
+end ExternalMixed
 
 end FxVerif.Props.C08
